@@ -1,6 +1,7 @@
 import RtenVerif.Driver.Util
 import RtenVerif.Model.Layout
 import RtenVerif.Model.Copy
+import RtenVerif.Model.CopyRange
 
 /-!
 `model_C09`: one chain of layout operations per request line.
@@ -119,6 +120,23 @@ def applyR (op : Op) (lshape : List Nat) (A : NArr Nat) : Except Err (NArr Nat) 
     if NArr.concatOk a A.shape s then .ok (A.concat a B) else .error .err
   | .clip a s e => A.sliceAxis a s e
 
+/-- For a `slc` op on the copying path: does the loop-level model of `copy_range_into_slice`
+(`CopyRange.copyRangeIntoSlice`, run on a buffer of `∏ sliced_shape` marker elements) produce
+exactly what the gather-level `sliceCopy` installs (or panic exactly when it panics)? -/
+def loopAgrees (t : TState) (items : List SliceItem) : Bool :=
+  match trySlice t.view items with
+  | .ok _ => true
+  | .error _ =>
+    match slicedShape t.view.dims items, copyRanges t.view.dims items with
+    | .ok shp, .ok lists =>
+      let A := t.arr
+      let loop := RtenVerif.CopyRange.copyRangeIntoSlice A.get (List.replicate (numel shp) 4242) lists
+      match loop, sliceCopy t items with
+      | .ok data, .ok t' => data == t'.store
+      | .error _, .error _ => true
+      | _, _ => false
+    | _, _ => true
+
 def showErr : Err → String
   | .err => "err"
   | .panic => "panic"
@@ -130,9 +148,13 @@ def run (ops : List Op) (t0 : TState) : String := Id.run do
   let mut r : Option (NArr Nat) := some t0.arr
   let mut k := 0
   let mut refErr : Option Nat := none
+  let mut loopOk := true
   for op in ops do
+    match op with
+    | .slc items => if !(loopAgrees t items) then loopOk := false
+    | _ => pure ()
     match applyL op t with
-    | .error e => return s!"{showErr e}@{k}"
+    | .error e => return s!"{showErr e}@{k}{if loopOk then "" else " LOOPDIFF"}"
     | .ok t' =>
       match r with
       | some A =>
@@ -147,7 +169,7 @@ def run (ops : List Op) (t0 : TState) : String := Id.run do
   match r with
   | some A =>
     let diff := if A.shape == la.shape && A.data == la.data then "" else s!" MODELDIFF layout-data={showNats "," la.data}"
-    s!"ok shape={showShape A.shape} {head} data={showNats "," A.data}{diff}"
+    s!"ok shape={showShape A.shape} {head} data={showNats "," A.data}{diff}{if loopOk then "" else " LOOPDIFF"}"
   | none =>
     s!"ok shape={showShape la.shape} {head} data={showNats "," la.data} REFERR@{refErr.getD 0}"
 
